@@ -1144,3 +1144,88 @@ func DeadStoreLoop(n int, c bool) int {
 	_ = x
 	return y
 }
+
+// ---- switch: default clause not last, with fallthrough ----
+
+func SwitchDefaultMiddle(a int) int {
+	r := 0
+	switch {
+	case a == 1:
+		r += 1
+	default:
+		r += 10
+		fallthrough
+	case a == 2:
+		r += 100
+	}
+	return r
+}
+
+func SwitchDefaultFirst(a, k int) int {
+	r := 0
+	switch a {
+	default:
+		r += 10
+		fallthrough
+	case k:
+		r += 100
+		fallthrough
+	case 7:
+		r += 1000
+	}
+	return r
+}
+
+func SwitchDefaultMiddleCalls(a int) int {
+	r := 0
+	switch x := side(a, 1); {
+	case x > 5:
+		r = 1
+		fallthrough
+	default:
+		r += 2
+		fallthrough
+	case side(x, 2) < 0:
+		r += 4
+	case x == 0:
+		r += 8
+	}
+	return r
+}
+
+// ---- comparisons of booleans with constants ----
+
+func BoolCmpConst(b bool) int {
+	r := 0
+	if b != true {
+		r |= 1
+	}
+	if true != b {
+		r |= 2
+	}
+	if b == false {
+		r |= 4
+	}
+	if false == b {
+		r |= 8
+	}
+	if b == true {
+		r |= 16
+	}
+	if b != false {
+		r |= 32
+	}
+	return r
+}
+
+func BoolCmpValue(a, b bool) bool {
+	x := a != true
+	y := false != b
+	z := (a == b) != true
+	return x == y || z
+}
+
+func BoolCmpNamed(a B) B {
+	var t B = true
+	return a != t || a == false
+}
